@@ -23,8 +23,31 @@ class Crash(RuntimeError):
     pass
 
 
-def node_id(info):
-    return int(str(info.path[-1])[1:])
+COMPOSITE = ("obj", "lobj")
+
+
+def lobj_of(plan):
+    """(L, N0): id of the list-of-objects node and the size of the table before Seal unfolded it, or None."""
+    if "_lobj" not in plan:
+        nodes = plan["nodes"]
+        L = next((i for i, n in enumerate(nodes, 1) if n["out"] == "lobj"), None)
+        plan["_lobj"] = (L, sum(1 for n in nodes if not n.get("item"))) if L else None
+    return plan["_lobj"]
+
+
+def node_id(info, plan=None):
+    """Field instance a ResolveInfo belongs to: the field fN, or - below the second item of the list-of-objects node - its copy."""
+    n = int(str(info.path[-1])[1:])
+    lo = lobj_of(plan) if plan is not None else None
+    if lo:
+        L, n0 = lo
+        path = list(info.path)
+        key = "f%d" % L
+        if key in path:
+            j = path.index(key)
+            if n != L and j + 1 < len(path) and path[j + 1] == 1:
+                return n - L + n0
+    return n
 
 
 def build(plan):
@@ -42,13 +65,16 @@ def build(plan):
     nodes = plan["nodes"]
     kids = {}
     for i, n in enumerate(nodes, 1):
-        kids.setdefault(n["parent"], []).append(i)
+        if not n.get("item"):           # (the copies for the second list item are instances of the same fields)
+            kids.setdefault(n["parent"], []).append(i)
     types = {}
 
     def type_of(i):
         n = nodes[i - 1]
         if n["out"] == "obj":
             return lambda i=i: types[i]
+        if n["out"] == "lobj":
+            return ListType(lambda i=i: types[i])
         if n["out"] == "nullnn":
             return NonNullType(Int)
         if n["out"] == "sernull":
@@ -70,7 +96,7 @@ def build(plan):
     def fields_of(p):
         return lambda p=p: [Field("f%d" % i, type_of(i), args_of(i)) for i in kids.get(p, [])]
     for i, n in enumerate(nodes, 1):
-        if n["out"] == "obj":
+        if n["out"] in COMPOSITE and not n.get("item"):
             types[i] = ObjectType("T%d" % i, fields_of(i))
     root = ObjectType("Root", fields_of(0))
     if plan["op"] == "mutation" and (plan.get("variant") or {}).get("root") == "shared":
@@ -82,13 +108,16 @@ def build(plan):
     else:
         schema = Schema(root)
 
+    v = plan.get("variant") or {}
+
     def one(i):
-        return "f%d%s%s" % (i, "(x: $nv)" if nodes[i - 1]["out"] == "argerr" else "", (" { %s }" % sel(i)) if nodes[i - 1]["out"] == "obj" else "")
+        # gamma dirs: every field carries a directive that changes nothing (@include(if: true) / @skip(if: false))
+        d = ("", " @include(if: true)", " @skip(if: false)")[(i % 2) + 1 if v.get("dirs") else 0]
+        return "f%d%s%s%s" % (i, "(x: $nv)" if nodes[i - 1]["out"] == "argerr" else "", d, (" { %s }" % sel(i)) if nodes[i - 1]["out"] in COMPOSITE else "")
 
     def sel(p):
         return " ".join(one(i) for i in kids.get(p, []))
     # gamma variants of the SAME abstract plan (CollectFields-equivalent documents)
-    v = plan.get("variant") or {}
     tops = kids.get(0, [])
     frags = []
     wrap = v.get("wrap", "none")
@@ -127,6 +156,8 @@ def behave(plan, n):
         return [n, None]
     if out == "obj":
         return {"__node__": n}
+    if out == "lobj":
+        return [{"__node__": n, "item": 0}, {"__node__": n, "item": 1}]
     if out == "err":
         if (plan.get("variant") or {}).get("err") == "completion":
             return n
@@ -184,14 +215,18 @@ def set_resolvers(schema, plan, kids, make):
                 setattr(root, "f%d" % i, (lambda ctx, info, _r=r, **kw: _r(root, ctx, info, **kw)))
             else:
                 f.resolver = r
-            if plan["nodes"][i - 1]["out"] == "obj":
+            if plan["nodes"][i - 1]["out"] in COMPOSITE:
                 visit(schema.get_type("T%d" % i), i)
     visit(schema.mutation_type if plan["op"] == "mutation" else schema.query_type, 0)
     return root
 
 
 def expected_data(plan, data):
+    def name(i):
+        return "f%d" % (plan["nodes"][i - 1].get("of") or i)
+
     def conv(v, i):
+        i = plan["nodes"][i - 1].get("of") or i         # (a copy is served by the resolver of the instance it copies)
         if v["k"] == "val":
             return i
         if v["k"] == "null":
@@ -201,9 +236,11 @@ def expected_data(plan, data):
         if v["k"] == "lnn":
             return [i, None]
         if v["k"] == "obj":
-            return [["f%d" % k["id"], conv(k["v"], k["id"])] for k in v["kids"]]
+            return [[name(k["id"]), conv(k["v"], k["id"])] for k in v["kids"]]
+        if v["k"] == "lobj":
+            return [[[name(k["id"]), conv(k["v"], k["id"])] for k in v["kids"] if k["item"] == item] for item in (0, 1)]
         return "CRASH"
-    return [["f%d" % t["id"], conv(t["v"], t["id"])] for t in data]
+    return [[name(t["id"]), conv(t["v"], t["id"])] for t in data]
 
 
 def expected_errors(plan, errs):
@@ -212,8 +249,11 @@ def expected_errors(plan, errs):
         path = []
         i = n
         while i:
-            path.append("f%d" % i)
-            i = plan["nodes"][i - 1]["parent"]
+            nd = plan["nodes"][i - 1]
+            path.append("f%d" % (nd.get("of") or i))
+            if nd["parent"] and plan["nodes"][nd["parent"] - 1]["out"] == "lobj":
+                path.append(nd.get("item", 0))          # (reversed below: the item index follows the list field's key)
+            i = nd["parent"]
         path = list(reversed(path))
         if plan["nodes"][n - 1]["out"] == "lnn":
             path.append(1)
@@ -350,7 +390,7 @@ class FakePool:
 
     def submit(self, fn, *a, **kw):
         f = Future()
-        n = node_id(a[2])
+        n = node_id(a[2], self.plan)
         self.submitted.append(n)
         if self.plan["nodes"][n - 1]["mode"] == "sync":
             self._run(f, fn, a, kw)
@@ -443,7 +483,7 @@ def _make_custom_runtime(plan, submitted):
 
         def submit(self, fn, *a, **kw):
             d = Deferred()
-            n = node_id(a[2])
+            n = node_id(a[2], plan)
             submitted.append(n)
             if plan["nodes"][n - 1]["mode"] == "sync":
                 self._run(d, fn, a, kw)
@@ -579,7 +619,7 @@ def run_pool(plan, beh, rec):
 
     def make(n):
         def res(root, ctx, info):
-            invoked.append(n)
+            invoked.append(node_id(info, plan))
             if rec:
                 rec.emit(e="res", p="/".join(map(str, info.path)))
             return behave(plan, n)
@@ -680,21 +720,21 @@ def run_asyncio(plan, beh, rec):
         def make(n):
             if plan["nodes"][n - 1]["mode"] == "sync":
                 def res(root, ctx, info):
-                    started.append(n)
+                    started.append(node_id(info, plan))
                     if rec:
                         rec.emit(e="res", p="/".join(map(str, info.path)))
                     return behave(plan, n)
                 return res
 
             async def ares(root, ctx, info):
-                g = gates[n] = loop.create_future()
+                g = gates[node_id(info, plan)] = loop.create_future()
                 await g
                 if rec:
                     rec.emit(e="res", p="/".join(map(str, info.path)))
                 return behave(plan, n)
 
             def outer(root, ctx, info):
-                started.append(n)
+                started.append(node_id(info, plan))
                 return ares(root, ctx, info)
             return outer
         rootv = set_resolvers(schema, plan, kids, make)
@@ -742,7 +782,7 @@ def run_blocking(plan, beh, rec, executor):
 
     def make(n):
         def res(root, ctx, info):
-            invoked.append(n)
+            invoked.append(node_id(info, plan))
             if rec:
                 rec.emit(e="res", p="/".join(map(str, info.path)))
             return behave(plan, n)
@@ -782,7 +822,7 @@ def _reachable_crash(plan):
         p = n["parent"]
         ok = True
         while p:
-            if nodes[p - 1]["out"] != "obj":
+            if nodes[p - 1]["out"] not in COMPOSITE:
                 ok = False
                 break
             p = nodes[p - 1]["parent"]
